@@ -29,3 +29,15 @@ package bandtss
 //@ modifies Bank, Other, DistrReceived, DistrAllocated
 //@ requires keeper.bParams(Store_bandtss).RewardPercentage <= 100
 //@ ensures err == nil ==> (forall d Str :: DistrAllocated[d] - old(DistrAllocated)[d] == DistrReceived[d] - old(DistrReceived)[d])
+
+// ---- C02 / C14: the module's ABCI entry point returns exactly what its blocker returned --------------------------------
+// (an error of the blocker must reach the SDK, which aborts the block; swallowing it would commit whatever the failed
+// blocker had already written - e.g. a fee share taken from the fee collector but only partly paid out)
+//@ func (am AppModule) BeginBlock
+//@ may_panic calls
+//@ modifies *
+//@ forwards BeginBlocker
+//@ func (am AppModule) EndBlock
+//@ may_panic calls
+//@ modifies *
+//@ forwards EndBlocker
